@@ -166,11 +166,12 @@ def r05_3(chk, dx):
         sig = {}
         for g, v, e in cases:
             gs = " & ".join(g)
-            if gs == f"(le $j 0)":
+            # guards are in the engine's canonical orientation (j <= 0 is `not (0 < j)`, j >= n-1 is `not (j < n-1)`)
+            if gs == "not (lt 0 $j)":
                 sig["low"] = v
-            elif gs == f"(le -1 + {ni} $j) & not (le $j 0)":
+            elif gs == f"(lt 0 $j) & not (lt $j -1 + {ni})":
                 sig["high"] = v
-            elif gs == f"not (le $j 0) & not (le -1 + {ni} $j)":
+            elif gs == f"(lt $j -1 + {ni}) & (lt 0 $j)":
                 sig["mid"] = v
         chk.need(set(sig) == {"low", "high", "mid"}, f"{name}: guards of the three cases not recognised: {[c[0] for c in cases]}")
         yj, yj1 = P.atom(("sub", yi, (J,))), P.atom(("sub", yi, (J + 1,)))
